@@ -115,8 +115,13 @@ pub fn c13(out: &mut dyn Write, tier: &str, rng: &mut Rng, st: &mut Stats) {
         let len = 50 + rng.below(if tier == "thorough" { 350 } else { 150 }) as usize;
         let nvars = 3 + (h % 4) as u64; // 3..6 variables keep the unfoldings small
         let mut steps: Vec<String> = Vec::new();
+        let mut force_clean = 0;
+        let mut dead = false;
         for _ in 0..len {
+            if dead { break; }
             let op: &str = if regs.len() < 3 { *rng.pick(&["c0", "c1", "var", "var"][..]) }
+                else if force_clean > 0 { force_clean -= 1; "clean" }
+                else if rng.chance(1, 40) { "keepone" }
                 else if rng.chance(1, 8) { *rng.pick(&OPS2[..]) } else { *rng.pick(&OPS[..]) };
             let pickr = |rng: &mut Rng, regs: &Vec<B>| rng.below(regs.len() as u64) as usize;
             let mut ai: Vec<usize> = Vec::new();
@@ -128,6 +133,14 @@ pub fn c13(out: &mut dyn Write, tier: &str, rng: &mut Rng, st: &mut Stats) {
                 "c0" | "c1" => op.to_string(),
                 "var" => { vs.push(rng.below(nvars) as usize); format!("var {}", vs[0]) }
                 "not" | "model" | "clean" => { ai.push(pickr(rng, &regs)); format!("{} r{}", op, ai[0]) }
+                "keepone" => {
+                    // every handle but one is given up: prefer a constant so that nothing alive refers to the other leaf
+                    let consts: Vec<usize> = (0..regs.len()).filter(|i| regs[*i].is_const()).collect();
+                    let k = if !consts.is_empty() && rng.chance(2, 3) { *rng.pick(&consts[..]) } else { pickr(rng, &regs) };
+                    ai.push(k);
+                    force_clean = 2 + rng.below(2);
+                    format!("keepone r{}", k)
+                }
                 "rett" | "retf" | "reta" => { ai.push(pickr(rng, &regs)); format!("ret {} r{}", &op[3..], ai[0]) }
                 "ite" => { for _ in 0..3 { ai.push(pickr(rng, &regs)); } format!("ite r{} r{} r{}", ai[0], ai[1], ai[2]) }
                 "ex" | "all" => {
@@ -156,13 +169,25 @@ pub fn c13(out: &mut dyn Write, tier: &str, rng: &mut Rng, st: &mut Stats) {
             let a: Vec<B> = ai.iter().map(|i| Rc::clone(&regs[*i])).collect();
             let la: Vec<B> = lai.iter().map(|i| Rc::clone(&regs[*i])).collect();
             let lb: Vec<B> = lbi.iter().map(|i| Rc::clone(&regs[*i])).collect();
-            let res = apply(&env, op, &a, &vs, n, &la, &lb);
+            if op == "keepone" {
+                let keep = Rc::clone(&regs[ai[0]]);
+                for r in regs.iter_mut() { *r = Rc::clone(&keep); }
+            }
+            let res = match guarded(std::panic::AssertUnwindSafe(|| apply(&env, if op == "keepone" { "reta" } else { op }, &a, &vs, n, &la, &lb))) {
+                Ok(r) => r,
+                Err(msg) => {
+                    steps.push(format!("{} => PANIC {} # 0 # 1 # 1", lhs, msg.replace(';', ",").replace('#', " ").replace('|', " ")));
+                    st.hit("op.PANIC");
+                    dead = true;
+                    continue;
+                }
+            };
             // the same operation in a fresh environment on structural copies (rebuilt there)
             let fresh_env: BDDEnv<usize> = BDDEnv::new();
             let ca: Vec<B> = a.iter().map(|b| intern(&fresh_env, b)).collect();
             let cla: Vec<B> = la.iter().map(|b| intern(&fresh_env, b)).collect();
             let clb: Vec<B> = lb.iter().map(|b| intern(&fresh_env, b)).collect();
-            let fres = apply(&fresh_env, op, &ca, &vs, n, &cla, &clb);
+            let fres = apply(&fresh_env, if op == "keepone" { "reta" } else { op }, &ca, &vs, n, &cla, &clb);
             let (d, ok, fresh_eq, newreg) = match (&res, &fres) {
                 (Res::D(b), Res::D(fb)) => {
                     let mut s = String::new();
